@@ -1,5 +1,6 @@
 import PynencModel.Props.C12
-open Pynenc.C12
+import PynencModel.Props.C12Gen
+open Pynenc.C12 Pynenc.C12G
 #print axioms flOK_id
 #print axioms slotStart_mono
 #print axioms slotEnd_le_next_start
@@ -14,3 +15,5 @@ open Pynenc.C12
 #print axioms fmod_shift
 #print axioms authorised_in_every_cycle
 #print axioms halfSlot_le_next_of_relErr
+#print axioms gen_slot_is_the_model
+#print axioms translated_source_excludes
